@@ -624,6 +624,71 @@ fn stop_storm_once(ctx: &Ctx, plan: &[(u16, u16, u16)], corp: &corpus::Corpus, r
     Ok(())
 }
 
+/// isready storm: hundreds of very short searches, each immediately followed by a burst of
+/// isready lines, so that the command loop prints `readyok` at the very moment the search thread
+/// prints its info and bestmove lines.  Every go must still get its own, intact bestmove line and
+/// every isready its own readyok line.
+pub fn isready_storm(ctx: &Ctx, rounds: usize, bursts: &[u16], rep: &mut Report) -> Result<(), Violation> {
+    let mut eng = match Engine::spawn(&ctx.engine, &[]) {
+        Ok(e) => e,
+        Err(e) => {
+            rep.infra_errors.push(format!("cannot spawn engine: {e}"));
+            return Ok(());
+        }
+    };
+    if !eng.ready(Duration::from_secs(10)) {
+        rep.infra_errors.push("engine did not answer the first isready".into());
+        return Ok(());
+    }
+    let base_ready = eng.stdout_lines().iter().filter(|e| e.line.trim() == "readyok").count();
+    let mut sent_ready = 0usize;
+    eng.send("position startpos");
+    for r in 0..rounds {
+        let burst = 1 + (bursts[r % bursts.len()] as usize % 48);
+        let mut text = String::from("go depth 1\n");
+        for _ in 0..burst {
+            text.push_str("isready\n");
+        }
+        eng.send_raw(text.as_bytes());
+        sent_ready += burst;
+        rep.eval(1);
+        // the bestmove of this round
+        let ev = eng.wait_for(Duration::from_secs(5), |e| is_best(e) || e.eof);
+        if !matches!(&ev, Some(e) if is_best(e)) {
+            eng.settle(Duration::from_millis(50));
+            let garbled: Vec<String> = eng.stdout_lines().iter().filter(|e| e.line.contains("bestmove") && !e.line.starts_with("bestmove")).map(|e| e.line.clone()).take(2).collect();
+            let cpu = eng.cpu_ms();
+            let sv = if garbled.is_empty() && eng.starved(cpu, Duration::from_secs(5)) { "/starved" } else { "" };
+            return Err(Violation::new(
+                "one-bestmove",
+                &format!("one-bestmove/isready-storm{sv}"),
+                format!("isready storm round {}: 'go depth 1' followed by {burst} isready lines got no bestmove LINE within 5 s{}", r + 1, if garbled.is_empty() { String::new() } else { format!(" (but there is output in which a bestmove is glued to something else: {garbled:?})") }),
+                json!({"isready_storm": rounds, "transcript": eng.transcript(16)}),
+            ));
+        }
+    }
+    if !eng.ready(Duration::from_secs(5)) {
+        rep.class("isready-storm:last-readyok-missing");
+    }
+    sent_ready += 1;
+    eng.settle(Duration::from_millis(100));
+    let got_ready = eng.stdout_lines().iter().filter(|e| e.line.trim() == "readyok").count() - base_ready;
+    let odd: Vec<String> = eng.stdout_lines().iter().filter(|e| !e.line.starts_with("info") && !e.line.starts_with("bestmove") && e.line.trim() != "readyok" && !e.line.trim().is_empty()).map(|e| e.line.clone()).take(3).collect();
+    if !odd.is_empty() || got_ready != sent_ready {
+        return Err(Violation::new(
+            "not-dropped",
+            "not-dropped/isready-storm",
+            format!("isready storm: {sent_ready} isready lines sent, {got_ready} readyok lines received; lines that are neither info, bestmove nor readyok: {odd:?}"),
+            json!({"isready_storm": rounds, "transcript": eng.transcript(16)}),
+        ));
+    }
+    rep.class("isready-storm(go depth 1 + burst of isready)");
+    rep.nontrivial(o::hash_str(&format!("isready-storm-{rounds}-{}", bursts.first().copied().unwrap_or(0))));
+    eng.send("quit");
+    let _ = eng.wait_exit(Duration::from_secs(2));
+    Ok(())
+}
+
 pub fn run(ctx: &Ctx) -> Report {
     if ctx.shard.is_none() {
         return run_sharded(ctx, SHARDS, SHARDS);
@@ -643,6 +708,23 @@ pub fn run(ctx: &Ctx) -> Report {
             }
         }
     }
+    // isready storms
+    let istorms = ctx.tier.pick(8, 160) / ctx.shard_count() as u32;
+    run_prop(ctx, "c10-isready-storm", istorms.max(1), 4, proptest::collection::vec(any::<u16>(), 16), &mut rep, |bursts, rep| {
+        let mut starved = 0;
+        loop {
+            match isready_storm(ctx, 250, bursts, rep) {
+                Err(v) if v.sig.ends_with("/starved") => {
+                    starved += 1;
+                    if starved >= 3 {
+                        rep.infra_errors.push(format!("inconclusive: the engine process was starved of CPU in three attempts ({})", v.detail));
+                        return Ok(());
+                    }
+                }
+                other => return other,
+            }
+        }
+    });
     // stop storms: 60-round plans
     let storms = ctx.tier.pick(16, 320) / ctx.shard_count() as u32;
     let plan = proptest::collection::vec((any::<u16>(), any::<u16>(), any::<u16>()), 60);
@@ -661,6 +743,15 @@ pub fn run(ctx: &Ctx) -> Report {
 
 pub fn replay(ctx: &Ctx, case: &Value) -> Report {
     let mut rep = Report::new();
+    if let Some(n) = case["isready_storm"].as_u64() {
+        for k in 0..6u16 {
+            if let Err(v) = isready_storm(ctx, n as usize, &[k * 7 + 1, 40, 3, 17, 47, 9], &mut rep) {
+                rep.violation(v);
+                break;
+            }
+        }
+        return rep;
+    }
     if let Some(storm) = case["storm"].as_array() {
         // a storm is a race: repeat the recorded rounds several times
         for _ in 0..20 {
@@ -717,7 +808,7 @@ pub fn replay(ctx: &Ctx, case: &Value) -> Report {
 }
 
 pub const LEVEL: &str = "exploration";
-pub const RULE: &str = "schedules against the real engine binary built with the cfg(rce_verif) schedule points: one labelled point (search:enter, search:armed, search:iter1, search:pre_best, search:post_best, uci:spawned) holds its window open for 50/150/300 ms, all points are traced; 1..3 rounds of (position, go {infinite | movetime 300 | nodes N | depth 3 | clocks}, trigger {when a label is seen | when the bestmove is seen | plain delay 0/5/50 ms | none}, action {stop | isready | position | ucinewgame | none}); the GUI side stays protocol-conformant (a new go only after the previous bestmove). Occasionally the first go of a round is followed by a second go while the search still runs (its own fate is not judged; the stop after it must work) and a round may search a finished game (exactly one bestmove line, content not judged). Plus 10 fixed schedules for the interleavings the statement names, and stop storms: 60-round plans of (position incl. capture-saturated 5-9-queen constructions, go {infinite | movetime | nodes | clocks | depth 60}, stop after a generated delay of 0..30 ms) on one engine with no window forced, bestmove due within 2 s of each stop. Windows are 50-300 ms and, in a quarter of the schedules, 800 or 1500 ms (longer than any bounded wait an engine might apply to its previous search thread); one round in six searches a root whose search may take a shortcut (a single legal move, bare kings, a fifty-move clock at 99/100, a threefold repetition), and fixed schedules send the next go right after such a search's bestmove. At the end of every schedule the engine must be idle (less than 250 ms of CPU in 400 ms): a search nobody can stop any more shows there. Oracle: every go => exactly one bestmove, legal in the position current when that go was sent; after stop the bestmove arrives within 2 s + injected sleeps; every isready => readyok within 3 s + sleeps; no go of a conformant script is refused. Non-trivial = the realised trace shows a command sent directly after the forced window's label (i.e. inside the window); distinct by realised order of labels, commands and bestmoves.";
+pub const RULE: &str = "schedules against the real engine binary built with the cfg(rce_verif) schedule points: one labelled point (search:enter, search:armed, search:iter1, search:pre_best, search:post_best, uci:spawned) holds its window open for 50/150/300 ms, all points are traced; 1..3 rounds of (position, go {infinite | movetime 300 | nodes N | depth 3 | clocks}, trigger {when a label is seen | when the bestmove is seen | plain delay 0/5/50 ms | none}, action {stop | isready | position | ucinewgame | none}); the GUI side stays protocol-conformant (a new go only after the previous bestmove). Occasionally the first go of a round is followed by a second go while the search still runs (its own fate is not judged; the stop after it must work) and a round may search a finished game (exactly one bestmove line, content not judged). Plus 10 fixed schedules for the interleavings the statement names, and stop storms: 60-round plans of (position incl. capture-saturated 5-9-queen constructions, go {infinite | movetime | nodes | clocks | depth 60}, stop after a generated delay of 0..30 ms) on one engine with no window forced, bestmove due within 2 s of each stop. Windows are 50-300 ms and, in a quarter of the schedules, 800 or 1500 ms (longer than any bounded wait an engine might apply to its previous search thread); one round in six searches a root whose search may take a shortcut (a single legal move, bare kings, a fifty-move clock at 99/100, a threefold repetition), and fixed schedules send the next go right after such a search's bestmove. Isready storms (250 rounds of 'go depth 1' immediately followed by 1-48 isready lines, on one engine): every go gets its own intact bestmove line, every isready its own readyok line, nothing else appears on stdout. At the end of every schedule the engine must be idle (less than 250 ms of CPU in 400 ms): a search nobody can stop any more shows there. Oracle: every go => exactly one bestmove, legal in the position current when that go was sent; after stop the bestmove arrives within 2 s + injected sleeps; every isready => readyok within 3 s + sleeps; no go of a conformant script is refused. Non-trivial = the realised trace shows a command sent directly after the forced window's label (i.e. inside the window); distinct by realised order of labels, commands and bestmoves.";
 pub const ASSUMPTIONS: &[&str] = &[
     "the labelled schedule points are the events the property names; orders that need a window at an unlabelled point are not reached",
     "all deadlines include the injected sleeps and a missing answer is a failure under any timing, so forcing a window cannot create a false alarm",
